@@ -939,11 +939,7 @@ class DateTime(datetime.datetime, Date):
 
         dt = self if keep_time else self.start_of("day")
 
-        dt = dt.add(days=1)
-        while dt.day_of_week != day_of_week:
-            dt = dt.add(days=1)
-
-        return dt
+        return dt.add(days=(day_of_week - dt.day_of_week - 1) % 7 + 1)
 
     def previous(
         self, day_of_week: WeekDay | None = None, keep_time: bool = False
@@ -962,11 +958,7 @@ class DateTime(datetime.datetime, Date):
 
         dt = self if keep_time else self.start_of("day")
 
-        dt = dt.subtract(days=1)
-        while dt.day_of_week != day_of_week:
-            dt = dt.subtract(days=1)
-
-        return dt
+        return dt.subtract(days=(dt.day_of_week - day_of_week - 1) % 7 + 1)
 
     def first_of(self, unit: str, day_of_week: WeekDay | None = None) -> Self:
         """
